@@ -64,6 +64,8 @@ def compare_models(a, b):
             tol = PTOL + 2.0 ** -23 * max(abs(u), 1e-30) + (1e-6 * abs(u) if isinstance(x, BinaryCLT) else 0)
             if u == v:          # covers -inf == -inf
                 continue
+            if math.isinf(u) or math.isinf(v):
+                return f'{type(x).__name__} #{x.id}: parameter {u!r} became {v!r}'      # a probability of exactly 0 must stay exactly 0
             if not abs(u - v) <= tol:
                 return f'{type(x).__name__} #{x.id}: parameter {u!r} became {v!r}'
         for cx, cy in zip(x.children, y.children):
